@@ -124,11 +124,25 @@ seed("C05_s1", "C05", "tensor_einsum_reduce_sum: inverse permutation (same as C0
 seed("C05_s2", "C05", "DecayChain.get_m_dep drops the per-event charge of CP-violating chain couplings", "is_cp couplings AND charge -1 events AND a cached / factorised strategy",
      "caught (4 failures) by the is_cp scenario added in the same round; the earlier version had no is_cp configuration and was not run against it", "check strengthened")
 
+# third round (2026-10-01, after the second hunt round; seeders worked on /repo 86e5232): one change per property on the checks
+# that had been strengthened most; all five were reported at the first attempt
+seed("C04_t1", "C04", "get_relative_p2 clamps negative q^2 at 0 (nominal q0^2 of the barrier normalisation no longer continued analytically)",
+     "a J >= 1 resonance whose nominal mass lies outside the phase space (below the daughters' threshold or beyond the kinematic limit)",
+     "caught at the first attempt: 18 failures (layers of the far / sub-threshold plans)")
+seed("C11_t1", "C11", "create_rotate_p_decay: frame of the SECOND daughter rotated by pi about y instead of x", "a decaying particle listed as outs[1] of its mother (branching, or A -> [D, R])",
+     "caught at the first attempt: 96 failures (forward vertex layers and round trip)")
+seed("C12_t1", "C12", "SU2M.get_euler_angle wraps alpha, gamma into (-pi,pi] (the same change as C12_m1, chosen independently on the repaired extraction)",
+     "an SU(2) element on the second sheet AND a half-integer spin", "caught at the first attempt: 12 failures")
+seed("C13_t1", "C13", "GetA2BC_LS_list flattened: the p_break branch appends before the C-parity test (the same change as C13_m1, chosen independently)",
+     "p_break (or a missing parity) AND a C-parity request", "caught at the first attempt: 263 failures")
+seed("C15_t1", "C15", "_ad_hoc effective mass: tanh argument divided by the half range instead of the documented full range", "BWR_below (or below_threshold) with the nominal mass below threshold",
+     "caught at the first attempt by 1 case (the only sub-threshold BWR_below particle case of the quick tier); the quick tier now has two such cases (2 failures), the thorough tier ten", "margin widened")
+
 if __name__ == "__main__":
     lines = ["# Seeded changes (confirmed in a scratch worktree: demo passes clean, fails with the change, pinned tests unchanged)", "",
-             "Each patch.diff is relative to the /repo HEAD at the time it was seeded (first round: d64dc15 / 69132ff, second round `_s`: a1f549d);",
+             "Each patch.diff is relative to the /repo HEAD at the time it was seeded (first round: d64dc15 / 69132ff, second round `_s`: a1f549d, third round `_t`: 86e5232 = final);",
              "C04_m1 was rebased onto the repaired Bprime_q2 (same change of the same statement; the original is kept as patch_original_d64dc15.diff).",
-             "On the final /repo HEAD 55 of the 61 apply with `git -C /repo apply`.  Not applicable any more, because a later repair rewrote the statement",
+             "On the final /repo HEAD 60 of the 66 apply with `git -C /repo apply`.  Not applicable any more, because a later repair rewrote the statement",
              "they change: C03_m2 (FitFractions.append_int), C06_m1 (cfit normalisation), C12_s2 (clip of cos(beta) before acos: the extraction is",
              "2 atan2(|x10|,|x11|) since a129335), C04_m2 and C08_s1 (these two had already stopped manifesting after a1f549d / d8e81e5).  C13_s2 still applies",
              "but no longer manifests: it routed integer-valued FLOAT spins to the JSON table, whose string keys missed them - repair 9ef724b normalises",
